@@ -3,6 +3,7 @@ package main
 import (
 	"encoding/json"
 	"fmt"
+	"runtime/debug"
 	"strings"
 
 	stackage "github.com/JesseCoretta/go-stackage"
@@ -51,6 +52,8 @@ func (n jnode) build() any {
 		return (*int)(nil)
 	case "tnil-op":
 		return (*ptrOp)(nil)
+	case "tnil-cop": // a nil pointer to the library's own operator type
+		return (*stackage.ComparisonOperator)(nil)
 	case "op":
 		return stackage.Eq
 	case "op0":
@@ -143,6 +146,8 @@ func c16Run(c *Ctx, cs c16Case, count bool, neighbours ...jnode) {
 		recv = stackage.List(1).Push("pre")
 	case "read-only":
 		recv = stackage.And().Push("pre").SetReadOnly(true)
+	case "and-mutex":
+		recv = stackage.And().SetMutex().Push("pre")
 	}
 	wasInit := recv.IsInit()
 	var before string
@@ -158,14 +163,30 @@ func c16Run(c *Ctx, cs c16Case, count bool, neighbours ...jnode) {
 		c.Transitions.Add(1)
 		c.Traces.Add(1)
 	}
-	p := noPanic(func() {
+	dead := false
+	p := func() (msg string) {
+		defer func() {
+			if r := recover(); r != nil {
+				if dp, ok := r.(deadlockPanic); ok {
+					dead = true
+					heldMutexes.Delete(dp.mutex)
+					return
+				}
+				msg = fmt.Sprintf("%v\n%s", r, shortStack(debug.Stack()))
+			}
+		}()
 		if cs.Form == "spread" {
 			err = recv.Marshal(in...)
 		} else {
 			err = recv.Marshal(in)
 		}
-	})
+		return ""
+	}()
 	desc := fmt.Sprintf("Marshal(%s %s) on %s receiver", cs.Form, cs.In, cs.Recv)
+	if dead {
+		c.Violation("deadlock:Marshal", desc+": Marshal tries to take the receiver's lock while already holding it", cs, size)
+		return
+	}
 	if p != "" {
 		c.Violation("panic:Marshal:"+panicSite(p), desc+" panicked: "+p, cs, size)
 		return
@@ -319,7 +340,7 @@ func c16Inputs(c *Ctx) []jnode {
 			}
 		}
 	}
-	opPos := []jnode{{T: "op"}, {T: "op0"}, {T: "uop"}, {T: "uop-empty"}, s("="), {T: "nil"}, {T: "int"}}
+	opPos := []jnode{{T: "op"}, {T: "op0"}, {T: "uop"}, {T: "uop-empty"}, s("="), {T: "nil"}, {T: "int"}, {T: "tnil-cop"}}
 	for _, lb := range []jnode{s("CONDITION"), s("condition")} {
 		for _, kw := range []jnode{s("kw"), {T: "int"}, {T: "nil"}, s("")} {
 			for _, op := range opPos {
@@ -393,7 +414,8 @@ func c16Inputs(c *Ctx) []jnode {
 func init() {
 	register(&Check{ID: "C16", Engine: "B", Run: func(c *Ctx) {
 		inputs := c16Inputs(c)
-		recvs := []string{"zero", "and", "full", "read-only"}
+		installLockModel()
+		recvs := []string{"zero", "and", "full", "read-only", "and-mutex"}
 		forms := []string{"spread", "envelope"}
 		c.Rule = "every []any input of the bounded family (labels in any case, junk and empty strings, numbers, nil, typed nil pointers, valid / zero / user / empty operators and non-operators in the operator position, ready-made and zero Stacks and Conditions, empty and nested envelopes, CONDITION rows of length 1..6, nesting depth up to 3, width up to 4/5) x receiver {zero, initialised, full, read-only} x {Marshal(in...), Marshal(in)}; oracle: no panic; error, or an initialised receiver on which String/Unmarshal/IsEqual/Valid/Len/Kind return; label honoured case-insensitively; unknown leading string gives BASIC with all entries; initialised receiver grows by exactly one Stack/Condition; non-trivial = distinct inputs that were decoded"
 		c.Bound["inputs"] = len(inputs)
@@ -413,6 +435,7 @@ func init() {
 		c.Sample(c16Case{inputs[len(inputs)/2], "and", "envelope"})
 		c.Sample(c16Case{inputs[len(inputs)-1], "zero", "spread"})
 	}, Replay: func(c *Ctx, raw json.RawMessage) {
+		installLockModel()
 		var cs c16Case
 		json.Unmarshal(raw, &cs)
 		c16Run(c, cs, false)
